@@ -437,7 +437,7 @@ def gen_run(seed: int, tier: str, sub: str) -> dict:
         names = [dnames[(doff + q) % len(dnames)] for q in range(3)]
         if rot % 2 and 'q_a16' in dnames:
             # the twins that differ only in the context their derived copies keep
-            names = [n for n in names if n not in ('q_a16', 'q_b8')][:2] + ['q_a16', 'q_b8']
+            names = [n for n in names if n not in ('q_a16', 'q_b8')] + ['q_a16', 'q_b8']
         picks = {name: (catalogue('main', name, m['SIG'][name])[rot % 4], r.choice(CTX_NAMES)) for name in names}
         threads = []
         for t in range(nthreads):
